@@ -115,7 +115,13 @@ Fixpoint read_tar (root : str) (st : list chunk) (clean : bool) (disk : fs) : bo
   | CPartial :: _ => (readtar_error_result, disk)
   | CDir n :: r => read_tar root r clean ((n, NDir) :: disk)
   | CSym n t :: r =>
-      if mem n disk || negb (parent_exists root n disk) then (readtar_error_result, disk)
+      (* os.Symlink fails with EEXIST on ANY existing entry at the name, whatever it is and wherever
+         it points (readtar_symlink_exists_is_error: what readTar does with that error, regenerated
+         from the tar.TypeSymlink case); tolerated, the member is skipped and what occupies the
+         path stays *)
+      if (readtar_symlink_exists_is_error && mem n disk) || negb (parent_exists root n disk)
+      then (readtar_error_result, disk)
+      else if mem n disk then read_tar root r clean disk
       else read_tar root r clean ((n, NLink t) :: disk)
   | CReg n sz d :: r =>
       if len d =? sz then read_tar root r clean ((n, NFile d) :: disk)
@@ -312,6 +318,129 @@ Fixpoint expected (t : tree) : list (str * node) :=
 Definition all_healthy (files : list tree) : bool := forallb healthy files.
 Definition all_expected (files : list tree) : list (str * node) := flat_map expected files.
 
+(* ---- follow-up 2: when the cancel reaches the store command ----
+   cmdCache.Store starts the archive writer (go write(...)) BEFORE cmd.CombinedOutput() creates the
+   process.  io.Pipe is synchronous and archive/tar writes each header straight through, so once
+   the writer has written anything the process exists (the write returned only after the
+   command's stdin copier had read it).  A read fault with NOTHING written yet (the first declared
+   output is missing or cannot be archived) can therefore reach cancel() before the process exists:
+   `sched` is that race.  With a context (KContext) cmd.Start then refuses to run the command;
+   with a guarded cmd.Process.Kill() (KProcessIfStarted) the cancel is dropped and the command
+   runs to its end on the archive the deferred Close calls finish. *)
+Inductive sched := CancelBeforeStart | CancelAfterStart.
+Inductive fate := NeverRan | Killed | RanToEnd.
+
+Definition cmd_fate_k (ks : kill_switch) (files : list tree) (sc : sched) : fate :=
+  let '(st, ok) := write files in
+  if ok || negb cmd_write_fault_cancels then RanToEnd else
+  match sc, st with
+  | CancelBeforeStart, [] =>
+      if cmd_store_writer_precedes_start
+      then match ks with KContext => NeverRan | KProcessIfStarted => RanToEnd end
+      else Killed
+  | _, _ => Killed
+  end.
+Definition cmd_fate : list tree -> sched -> fate := cmd_fate_k cmd_store_kill_switch.
+
+(* a store command that publishes under the key only when it ran to its end, and then everything
+   it read (`cat > tmp && mv tmp final`, the rename done by the killed process itself) *)
+Definition atomic_commit (f : fate) (sent : blob) : option N :=
+  match f with RanToEnd => Some (bytes sent) | _ => None end.
+
+Definition cmd_store_atomic_k (ks : kill_switch) (store : option blob) (files : list tree) (sc : sched) : option blob :=
+  cmd_store store files (atomic_commit (cmd_fate_k ks files sc) (cmd_sent files)).
+Definition cmd_store_atomic := cmd_store_atomic_k cmd_store_kill_switch.
+
+(* ---- follow-up 2: the cache multiplexer (cache.go) over an HTTP and a command cache ----
+   State: per cache, in priority order, what it holds under the key.  The declared outputs are
+   plain paths; a Store reads them from the output directory as it is at that moment. *)
+Inductive ckind := KHttp | KCmd.
+Definition mstate := list (ckind * option blob).
+
+Definition of_disk (disk : fs) (n : str) : tree :=
+  match lookup n disk with
+  | Some (NFile d) => TFile n d
+  | Some (NLink t) => TLink n t
+  | Some NDir => TDir n []          (* directory outputs are outside this part of the model *)
+  | None => TMissing n
+  end.
+
+(* transport of one Store: None = nothing arrives (PUT fails / the command keeps nothing),
+   Some k = the PUT arrives / the command keeps the first k bytes it was sent *)
+Definition store_one (k : ckind) (e : option blob) (files : list tree) (sf : option N) : option blob :=
+  match k with
+  | KHttp => http_store e files (match sf with Some _ => true | None => false end)
+  | KCmd => cmd_store e files sf
+  end.
+
+Record rfault := RF { rf_get : get_fault; rf_cut : option N; rf_exit : bool }.
+Definition rf_none : rfault := RF GetOk None true.
+
+Definition retrieve_one (root : str) (k : ckind) (e : option blob) (rf : rfault) (disk : fs) : bool * fs :=
+  match k with
+  | KHttp => http_retrieve root e (rf_get rf) disk
+  | KCmd => cmd_retrieve root e (rf_cut rf) (rf_exit rf) disk
+  end.
+
+(* storeUntil: Store into every cache in front of index `stop` (on distinct caches: independent) *)
+Fixpoint store_until (stop : nat) (st : mstate) (files : list tree) (sfs : list (option N)) : mstate :=
+  match stop, st with
+  | S j, (k, e) :: r => (k, store_one k e files (hd None sfs)) :: store_until j r files (tl sfs)
+  | _, _ => st
+  end.
+
+(* the Retrieve loop: caches are asked in order, each unpacking into the SAME output directory,
+   until one hits *)
+Fixpoint first_hit (root : str) (st : mstate) (rfs : list rfault) (disk : fs) (i : nat) : option nat * fs :=
+  match st with
+  | [] => (None, disk)
+  | (k, e) :: r => let '(h, d) := retrieve_one root k e (hd rf_none rfs) disk in
+                   if h then (Some i, d) else first_hit root r (tl rfs) d (S i)
+  end.
+
+Definition mplex_retrieve_b (backfill_on_total_miss : bool) (root : str) (declared : list str) (st : mstate)
+    (rfs : list rfault) (sfs : list (option N)) (disk : fs) : bool * mstate * fs :=
+  let '(hit, d) := first_hit root st rfs disk 0 in
+  let files := map (of_disk d) declared in
+  match hit with
+  | Some i => (true, store_until i st files sfs, d)
+  | None => (false, if backfill_on_total_miss then store_until (length st) st files sfs else st, d)
+  end.
+Definition mplex_retrieve := mplex_retrieve_b mplex_backfill_on_total_miss.
+
+Definition mplex_store (declared : list str) (st : mstate) (sfs : list (option N)) (disk : fs) : mstate :=
+  store_until (length st) st (map (of_disk disk) declared) sfs.
+
+(* histories: the target is built (its outputs `ref` are in a fresh output directory) and stored;
+   the output directory is emptied; the key is retrieved *)
+Inductive op :=
+| OBuild (sfs : list (option N))
+| OWipe
+| ORetrieve (rfs : list rfault) (sfs : list (option N)).
+
+Definition mstep (root : str) (ref : list tree) (s : mstate * fs) (o : op) : (mstate * fs) * option bool :=
+  let '(st, disk) := s in
+  let declared := map name_of ref in
+  match o with
+  | OBuild sfs => let d := all_expected ref in ((mplex_store declared st sfs d, d), None)
+  | OWipe => ((st, []), None)
+  | ORetrieve rfs sfs => let '(h, st', d) := mplex_retrieve root declared st rfs sfs disk in ((st', d), Some h)
+  end.
+
+Fixpoint mexec (root : str) (ref : list tree) (s : mstate * fs) (ops : list op) : mstate * fs :=
+  match ops with
+  | [] => s
+  | o :: r => mexec root ref (fst (mstep root ref s o)) r
+  end.
+
+Fixpoint flat (files : list tree) : bool :=
+  match files with
+  | [] => true
+  | (TFile _ _ | TLink _ _) :: r => flat r
+  | _ => false
+  end.
+
+
 (* ---- correspondence cases ---- *)
 Definition node_eqb (a b : node) : bool :=
   match a, b with
@@ -353,7 +482,53 @@ Inductive case :=
 | CHttpV (root : str) (files : list tree) (pos : nat) (put_ok : bool) (g : get_fault)
          (stored : bool) (tar_len : N) (members : list str) (hit : bool) (disk : list (str * option node))
 | CCmdV (root : str) (files : list tree) (pos : nat) (commit : option N) (whole : bool) (rcut : option N) (exit_ok : bool)
-        (members : list str) (hit : bool) (disk : list (str * option node)).
+        (members : list str) (hit : bool) (disk : list (str * option node))
+(* follow-up 2 *)
+(* a store through a command that publishes only when it ran to its end (tmp + mv by sh itself),
+   then a fault-free retrieve; observed: whether an entry was published, its length and members *)
+| CCmdAtomic (root : str) (files : list tree)
+             (stored : bool) (tar_len : N) (members : list str) (hit : bool) (disk : list (str * option node))
+(* a fault-free store, then a retrieve into an output directory that already holds `pre` *)
+| CHttpInto (root : str) (files : list tree) (pre : list (str * node)) (g : get_fault)
+            (hit : bool) (disk : list (str * option node))
+| CCmdInto (root : str) (files : list tree) (pre : list (str * node)) (rcut : option N) (exit_ok : bool)
+           (hit : bool) (disk : list (str * option node))
+(* a history on the multiplexer over `kinds`; after each operation: the result of Retrieve, what
+   each cache holds under the key (stored, length, members) and the output directory *)
+| CMplex (root : str) (ref : list tree) (kinds : list ckind)
+         (steps : list (op * (option bool * list (bool * N * list str) * list (str * option node)))).
+
+Definition entry_matches (e : ckind * option blob) (o : bool * N * list str) : bool :=
+  let '(stored, ln, mem) := o in
+  match snd e with
+  | None => negb stored
+  | Some b => stored && (bytes b =? ln) && names_eqb (names b) mem
+  end.
+
+Fixpoint all2 {A B} (f : A -> B -> bool) (a : list A) (b : list B) : bool :=
+  match a, b with
+  | [], [] => true
+  | x :: a', y :: b' => f x y && all2 f a' b'
+  | _, _ => false
+  end.
+
+Fixpoint check_mplex (root : str) (ref : list tree) (s : mstate * fs)
+    (steps : list (op * (option bool * list (bool * N * list str) * list (str * option node)))) : bool :=
+  match steps with
+  | [] => true
+  | (o, (res, ents, dk)) :: r =>
+      let '(s', h) := mstep root ref s o in
+      option_eqb Bool.eqb h res && all2 entry_matches (fst s') ents && disk_matches (snd s') dk
+      && check_mplex root ref s' r
+  end.
+
+Definition check_cmd_atomic (root : str) (files : list tree)
+    (stored : bool) (tar_len : N) (members : list str) (hit : bool) (disk : list (str * option node)) : bool :=
+  existsb (fun sc =>
+    let sv := cmd_store_atomic None files sc in
+    let '(h, d) := cmd_retrieve root sv None true [] in
+    entry_matches (KCmd, sv) (stored, tar_len, members) && Bool.eqb h hit && disk_matches d disk)
+  [CancelBeforeStart; CancelAfterStart].
 
 Definition check_http (root : str) (files : list tree) (put_ok : bool) (g : get_fault)
     (stored : bool) (tar_len : N) (members : list str) (hit : bool) (disk : list (str * option node)) : bool :=
@@ -388,4 +563,14 @@ Definition check (c : case) : bool :=
   | CCmdV root files pos commit whole rcut exit_ok members hit disk =>
       (pos <? size_list files)%nat && all_healthy files &&
       check_cmd root (vanish_list files pos) commit whole rcut exit_ok members hit disk
+  | CCmdAtomic root files stored tar_len members hit disk =>
+      check_cmd_atomic root files stored tar_len members hit disk
+  | CHttpInto root files pre g hit disk =>
+      let '(h, d) := http_retrieve root (http_store None files true) g pre in
+      all_healthy files && Bool.eqb h hit && disk_matches d disk
+  | CCmdInto root files pre rcut exit_ok hit disk =>
+      let '(h, d) := cmd_retrieve root (cmd_store None files (Some (bytes (cmd_sent files)))) rcut exit_ok pre in
+      all_healthy files && Bool.eqb h hit && disk_matches d disk
+  | CMplex root ref kinds steps =>
+      flat ref && check_mplex root ref (map (fun k => (k, None)) kinds, []) steps
   end.
